@@ -37,7 +37,7 @@ KNOWN = set(F_UNARY + F_BINARY + COMPARE + B_BINARY + I_BINARY + OTHER)
 FLOAT_VALUES = [0.0, -0.0, 1.0, 2.0, 0.5, -1.0, 0.1, 3.141592653589793, 1e10, 1e-10, 1.5, -2.5, 0.3333333333333333, 7.0, 1e30,
                 float("inf"), float("-inf"), 100.0, 0.7071067811865476]
 INT_VALUES = [0, 1, 2, -1, 7, 3]
-COMPLEX_PARTS = [0.0, -0.0, 1.0, 2.0, 3.0, -2.0, 0.5, -0.5, 0.1, -1.0, 1e10]
+COMPLEX_PARTS = [0.0, 1.0, 2.0, 3.0, -2.0, 0.5, -0.5, 0.1, -1.0, 1e10]
 
 
 def fhex(x):
@@ -98,6 +98,13 @@ class Gen:
         likes = self.of_type(lambda u: u == t)
         if not likes:
             return self.new_arg(t)
+        if len(self.ftypes) > 1:
+            # `make_constant` normalises `like` down to a leaf (expr.normalize_like): in a mixed-dtype graph the
+            # constant would silently take the type of that leaf, not of the node chosen here; use a leaf directly
+            leaf = [j for j in likes if self.nodes[j][0] == "arg"]
+            if not leaf:
+                return self.new_arg(t)
+            likes = leaf
         like = self.rng.choice(likes)
         r = self.rng.random()
         if r < 0.12 and self.consts:
@@ -156,7 +163,8 @@ class Gen:
 
     def new_complex_const(self, like):
         """complex-valued constant (Python complex or numpy complex scalar) like an existing complex node.
-        Parts are finite (inf/nan parts are a known finding); -0.0 parts are included since /repo a45d4e7."""
+        Parts are finite and free of -0.0: `str(complex(-0.0, 0.1))` is `(-0+0.1j)`, which reads back with a +0.0
+        part (known finding, like inf/nan parts); real-valued -0.0 constants ARE drawn (since /repo a45d4e7)."""
         ct = self.types[like]
         re, im = self.rng.choice(COMPLEX_PARTS), self.rng.choice(COMPLEX_PARTS)
         if self.target == "python" or self.rng.random() < 0.5:
@@ -439,6 +447,13 @@ def known_finding_recipes():
     R.append(dict(target="numpy", name="kf_np_auto_name_join", args=[["x", "float64"], ["y_z", "float64"], ["x_y", "float64"], ["z", "float64"]],
                   nodes=[arg(0), arg(1), arg(2), arg(3), op("add", 0, 1), op("add", 2, 3), op("multiply", 4, 4),
                          op("multiply", 5, 5), op("subtract", 6, 7)], root=8, refs={}, stream="kf"))
+    # str(complex) does not round-trip a negative zero part: (-0+0.1j) reads back as (0+0.1j), (1-0j) as (1+0j)
+    R.append(dict(target="python", name="kf_py_complex_negzero_part", args=[["z", "complex"], ["x", "float"]],
+                  nodes=[arg(0), arg(1), ["const", ["complex", fhex(-0.0), fhex(0.1)], 0], op("real", 2), op("copysign", 1, 3)],
+                  root=4, refs={}, stream="kf"))
+    R.append(dict(target="numpy", name="kf_np_complex_negzero_part", args=[["z", "complex128"], ["x", "float64"]],
+                  nodes=[arg(0), arg(1), ["const", ["complex", fhex(1.0), fhex(-0.0)], 0], op("imag", 2), op("copysign", 1, 3)],
+                  root=4, refs={}, stream="kf"))
     # complex constants with an infinite part print as `(1+infj)`
     R.append(dict(target="numpy", name="kf_np_complex_inf_part", args=[["z", "complex128"]],
                   nodes=[arg(0), ["const", ["complex", fhex(1.0), "inf"], 0], op("add", 0, 1)], root=2, refs={}, stream="kf"))
